@@ -258,9 +258,10 @@ R1 ==
     /\ up /\ pc # <<>> /\ pc[1].k = "r1"
     /\ LET h == pc[1].h
            d == [view EXCEPT !.body = {x \in @ : x <= h}, !.stage = "r1", !.sp = h]
-       IN  view' = d /\ disk' = d
+       IN  /\ view' = d /\ disk' = d
+           /\ lru' = WithPulled(mem, lru, view, (h + 1)..bh)          \* bc.GetHeaderHash(i) for every removed block
     /\ pc' = Tail(pc)
-    /\ UNCHANGED <<mem, lru, up, dead, gcLast, acc, crashes, resets, last>>
+    /\ UNCHANGED <<mem, up, dead, gcLast, acc, crashes, resets, last>>
 
 R2 ==
     /\ up /\ pc # <<>> /\ pc[1].k = "r2"
@@ -269,9 +270,10 @@ R2 ==
            d == [view EXCEPT !.hdr = {x \in @ : x <= h}, !.body = {x \in @ : x <= h},
                              !.pages = IF "ResetKeepsPages" \in Dev THEN @ ELSE Drop(@, above),
                              !.cur = h, !.curc = C(h), !.blk = h, !.stage = "r2", !.sp = h]
-       IN  view' = d /\ disk' = d
+       IN  /\ view' = d /\ disk' = d
+           /\ lru' = WithPulled(mem, lru, view, (h + 1)..hh)          \* PurgeHeader(bc.GetHeaderHash(i))
     /\ pc' = Tail(pc)
-    /\ UNCHANGED <<mem, lru, up, dead, gcLast, acc, crashes, resets, last>>
+    /\ UNCHANGED <<mem, up, dead, gcLast, acc, crashes, resets, last>>
 
 R3 ==
     /\ up /\ pc # <<>> /\ pc[1].k = "r3"
